@@ -778,6 +778,41 @@ func checkC15(p *Prog, r *Report) {
 	// ---- R15.9 exhaustive clean-up / migration loops ----
 	r.Rule("R15.9", "The loops that must treat every element of a collection do so: no early exit, and no path through an iteration that skips the operation (removal, close and deadline propagation reach every packet / TCP connection).", 3)
 	checkForAllLoops(p, r, "C15")
+
+	// ---- R15.10 one key form for the per-ufrag table ---------------------------------------------------------
+	r.Rule("R15.10", "The per-ufrag table of packet connections is keyed by the text of the local IP (ipAddr(ip.String())) at creation, lookup and removal; a removal key that reaches removeConnByUfragAndLocalHost is the key the connection was created under.", 3)
+	{
+		n := 0
+		for _, f := range p.AllFuncs {
+			if f.Pkg != p.Ice || f.Body == nil {
+				continue
+			}
+			walkBody(f, func(x ast.Node) bool {
+				var key ast.Expr
+				var at ast.Node
+				switch y := x.(type) {
+				case *ast.IndexExpr:
+					if typeStr(p.TypeOf(y.X)) == "map[ice.ipAddr]*ice.tcpPacketConn" {
+						key, at = y.Index, y
+					}
+				case *ast.CallExpr:
+					if p.CalleeName(y) == "builtin.delete" && len(y.Args) == 2 && typeStr(p.TypeOf(y.Args[0])) == "map[ice.ipAddr]*ice.tcpPacketConn" {
+						key, at = y.Args[1], y
+					}
+				}
+				if key == nil {
+					return true
+				}
+				n++
+				ok := p.isLocalIPKey(f, key, 0)
+				r.Check(ok, "per-ufrag table key in "+f.Name, p.Pos(at.Pos()), "ipAddr(ip.String())", "the table of packet connections is keyed by "+stripVarLines(p.Canon(key))+" here: creation, lookup and removal no longer agree on the key")
+				return true
+			})
+		}
+		if n < 3 {
+			r.Fail("per-ufrag table keys", "tcp_mux.go", "table accesses not found (rule instance lost)")
+		}
+	}
 }
 
 func rootIdent(e ast.Expr) *ast.Ident {
@@ -869,4 +904,54 @@ func (p *Prog) DefsOfName(f *Func, name string) []VarDef {
 		return true
 	})
 	return out
+}
+
+// isLocalIPKey: e is ipAddr(x.String()) with x a net.IP, a local defined by
+// that, or a parameter all of whose call-site arguments are.
+func (p *Prog) isLocalIPKey(f *Func, e ast.Expr, depth int) bool {
+	if depth > 3 {
+		return false
+	}
+	e = unparen(e)
+	if c, ok := e.(*ast.CallExpr); ok {
+		if tv, ok := p.Info.Types[c.Fun]; ok && tv.IsType() && typeStr(tv.Type) == "ice.ipAddr" && len(c.Args) == 1 {
+			if sc, ok := unparen(c.Args[0]).(*ast.CallExpr); ok && p.CalleeName(sc) == "net.IP.String" {
+				return true
+			}
+		}
+		return false
+	}
+	id, ok := e.(*ast.Ident)
+	if !ok {
+		return false
+	}
+	obj := p.ObjOf(id)
+	for fn := f; fn != nil; fn = fn.Parent {
+		if d, ok := p.SingleDef(fn, obj); ok && d.Rhs != nil {
+			return p.isLocalIPKey(fn, d.Rhs, depth+1)
+		}
+		// parameter: every call site passes such a key
+		if fn.Type != nil && fn.Type.Params != nil {
+			idx := 0
+			for _, fl := range fn.Type.Params.List {
+				for _, nm := range fl.Names {
+					if p.ObjOf(nm) == obj {
+						n, okAll := 0, true
+						for _, ce := range p.Callers(fn) {
+							if ce.Call == nil || ce.Kind == "arg" || len(ce.Call.Args) <= idx {
+								continue
+							}
+							n++
+							if !p.isLocalIPKey(ce.Caller, ce.Call.Args[idx], depth+1) {
+								okAll = false
+							}
+						}
+						return okAll && n > 0
+					}
+					idx++
+				}
+			}
+		}
+	}
+	return false
 }
